@@ -899,14 +899,24 @@ func (g *gossipRun) bcasts() []map[string]interface{} {
 	return out
 }
 
-// messages the reactor queued for consensus.State (Proposal / BlockPart / Vote from the peer)
+// messages the reactor queued for consensus.State (Proposal / BlockPart / Vote / VoteSetMaj23 claim of the peer): each is
+// handled by cs.handleMsg as an explicit step of its own (the receive routine would log it to the WAL first)
 func (g *gossipRun) drainNodeQueue() {
 	cs := g.node.cs
-	for {
+	for g.undecided == "" {
 		select {
 		case mi := <-cs.peerMsgQueue:
+			if c, ok := mi.Msg.(*VoteSetMaj23Message); ok {
+				g.node.noteClaim(c.Height, c.Round, c.Type, c.BlockID)
+			}
 			cs.handleMsg(mi)
 			g.node.drainOwn()
+			g.waitFresh()
+			pm, err := MsgToProto(mi.Msg)
+			if err != nil {
+				panic(err)
+			}
+			g.out.emit(map[string]interface{}{"ev": "Handle", "run": g.c.ID, "m": g.w.projMsg(pm), "n": g.projNode(), "bcast": g.bcasts()})
 		default:
 			return
 		}
@@ -922,17 +932,12 @@ func (g *gossipRun) recv(ch byte, m proto.Message, why string) {
 	if err != nil {
 		panic(err)
 	}
-	if c, ok := m.(*tmcons.VoteSetMaj23); ok {
-		if bid, err := types.BlockIDFromProto(&c.BlockID); err == nil {
-			g.node.noteClaim(c.Height, c.Round, c.Type, *bid)
-		}
-	}
 	g.conR.Receive(ch, g.peer, b)
-	g.drainNodeQueue()
 	g.waitFresh()
 	ans := g.peer.take()
 	g.out.emit(map[string]interface{}{"ev": "Recv", "run": g.c.ID, "why": why, "m": g.w.projMsg(m), "prs": g.projPRS(), "n": g.projNode(),
 		"sent": g.msgs(ans), "bcast": g.bcasts()})
+	g.drainNodeQueue()
 	// answers of the node (VoteSetBits) go to the peer's brain like everything else
 	g.deliver(ans)
 }
@@ -968,23 +973,24 @@ func (g *gossipRun) deliver(ss []gossipSent) {
 			g.brain.drainOwn()
 			handled = "state"
 		case *VoteSetMaj23Message:
-			// the peer's Reactor.Receive for VoteSetMaj23Message
+			// the peer's Reactor.Receive for VoteSetMaj23Message: the reply from the vote sets as they are, the claim itself
+			// through the peer queue to the peer's state machine
 			if cs.Height == m.Height {
-				g.brain.noteClaim(m.Height, m.Round, m.Type, m.BlockID)
-				if err := cs.Votes.SetPeerMaj23(m.Round, m.Type, p2p.ID("node"), m.BlockID); err == nil {
-					var ours *bits.BitArray
-					if m.Type == tmproto.PrevoteType {
-						ours = cs.Votes.Prevotes(m.Round).BitArrayByBlockID(m.BlockID)
-					} else {
-						ours = cs.Votes.Precommits(m.Round).BitArrayByBlockID(m.BlockID)
-					}
-					e := &tmcons.VoteSetBits{Height: m.Height, Round: m.Round, Type: m.Type, BlockID: m.BlockID.ToProto()}
-					if v := ours.ToProto(); v != nil {
-						e.Votes = *v
-					}
-					g.annq = append(g.annq, e)
-					g.annch = append(g.annch, VoteSetBitsChannel)
+				var ours *bits.BitArray
+				if m.Type == tmproto.PrevoteType {
+					ours = cs.Votes.Prevotes(m.Round).BitArrayByBlockID(m.BlockID)
+				} else {
+					ours = cs.Votes.Precommits(m.Round).BitArrayByBlockID(m.BlockID)
 				}
+				e := &tmcons.VoteSetBits{Height: m.Height, Round: m.Round, Type: m.Type, BlockID: m.BlockID.ToProto()}
+				if v := ours.ToProto(); v != nil {
+					e.Votes = *v
+				}
+				g.brain.noteClaim(m.Height, m.Round, m.Type, m.BlockID)
+				cs.handleMsg(msgInfo{Msg: msg, PeerID: p2p.ID("node")})
+				g.brain.drainOwn()
+				g.annq = append(g.annq, e)
+				g.annch = append(g.annch, VoteSetBitsChannel)
 				handled = "claim"
 			}
 		}
